@@ -183,6 +183,19 @@ theorem qr_roundtrip_gs1 (T : Tables) (hT : TablesConform T) (hint : Hint) (v : 
     | some val =>
       cases seg <;> simp [gs1Items, guessed] at hbs
 
+/-- GS1 alphanumeric data escaped as 7.4.8.2 prescribes (`%` doubled, separator GS written as a single `%`:
+    `QRMulti.gs1Escape`) comes back unchanged through the parser's FNC1 rule — for data in which no separator is directly
+    followed by a separator or by `%` (`gs1Clean`); there the standard's escape itself is ambiguous (next example).
+    Together with `qr_roundtrip_segments` (FNC1 header + alphanumeric segment of the escaped characters): GS1 element
+    strings round-trip. -/
+theorem gs1_escape_inv (xs : List Nat) (h : gs1Clean xs = true) : fnc1Massage (gs1Escape xs) = xs :=
+  fnc1Massage_gs1Escape xs h
+
+/-- `GS %` and `% GS` have the same escape `%%%`; `GS GS` escapes to `%%`, which reads as one `%` -/
+example : gs1Escape [0x1D, 37] = gs1Escape [37, 0x1D] ∧ fnc1Massage (gs1Escape [0x1D, 0x1D]) = [37] ∧
+    gs1Clean [65, 0x1D, 66, 37, 37, 0x1D] = true ∧
+    fnc1Massage (gs1Escape [65, 0x1D, 66, 37, 37, 0x1D]) = [65, 0x1D, 66, 37, 37, 0x1D] := by decide
+
 /-! ### non-vacuity -/
 
 /-- a mixed symbol: structured append (2nd of 3, parity 0x5A), FNC1 first position, "0123" numeric, "A%%B%" alphanumeric,
@@ -203,6 +216,20 @@ example : (bitsOf 2 demo.items).length = 215 ∧ 215 ≤ 8 * QRRef.dataCodewords
       ⟨[.raw [48, 49, 50, 51], .raw [65, 37, 66, 0x1D], .text .latin1 [0x61, 0x62], .text (.named "ISO8859_7") [0xE1, 0xE2],
         .text .sjis [0x93, 0x5F], .text (.named "GB18030") [0xB0, 0xA1]],
        [[0x61, 0x62], [0xE1, 0xE2]], 0x12, 0x5A, 4⟩ := by decide +kernel
+
+instance (p : Nat × Nat) : Decidable (kanjiPairOK p) := by unfold kanjiPairOK; infer_instance
+
+instance (reg : Registry) (it : Item) : Decidable (it.Content reg) := by
+  cases it <;> unfold Item.Content <;> infer_instance
+
+/-- … and every hypothesis of `qr_roundtrip_segments` holds for it (tables of the standard with a one-entry ECI registry,
+    version 2-M, mask 5): an instance of the theorem -/
+example : decode ⟨refFmt, QRRef.formatMask, refVdi, refVersions, demoReg⟩ rsQR .none
+      (refSymbol 2 .M 5 (bitsOf 2 demo.items)) =
+    .ok ⟨demo.expected demoReg (fun _ => .latin1), .M, 2,
+      QRRef.terminate (QRRef.dataCodewords 2 .M) (bitsOf 2 demo.items), false⟩ :=
+  qr_roundtrip_segments ⟨refFmt, QRRef.formatMask, refVdi, refVersions, demoReg⟩ ⟨rfl, rfl, rfl⟩ .none 2 (by decide) (by decide)
+    .M 5 (by decide) demo (fun _ => .latin1) (by decide) (by decide) (by decide +kernel) (by decide +kernel)
 
 /-- the library's registry need not be consulted for a symbol without ECI: any `Tables`, hint absent — the hypothesis
     `hg` of `qr_roundtrip_segments` is then satisfied by the guess itself -/
